@@ -13,7 +13,7 @@ enum Kind { A1, A2, CNT, FACC, FREJ, M1, M2, MEMPTY, SINK, GACC, GREJ, GMUT, NUL
 const char *KN[] = { "A1", "A2", "C", "F+", "F-", "M1", "M2", "Me", "S", "G+", "G-", "Gm", "null", "Mc", "pipe", "scoped" };
 const int NLEAF = PIPE_U;
 
-struct Node { int kind; std::vector<Node> kids; };
+struct Node { int kind; std::vector<Node> kids; int sid = -1; };   // sid: sink number fixed in advance (mutation space), -1 = numbered in construction order
 
 std::string show(const std::vector<Node> &f)
 {
@@ -72,11 +72,12 @@ struct HM : Formatter { int n; HM(int n) : n(n) {}
 struct HS : Sink { int id; Obs *o; HS(int id, Obs *o) : id(id), o(o) {}
     void send(const LogMessage &m) override { o->log.push_back({ id, m.formattedMessage(), amap(m.attributes()), m.message() }); } };
 
-struct Built { PipelinePtr root; Obs obs; QSharedPointer<HC> counter; int nsinks = 0; };
+struct Built { PipelinePtr root; Obs obs; QSharedPointer<HC> counter; int nsinks = 0; std::map<const Node *, HandlerPtr> made; const Node *skip = nullptr; };
 
 void build(Pipeline *p, const std::vector<Node> &f, Built &b)
 {
     for (auto &n : f) {
+        if (&n == b.skip) continue;
         switch (n.kind) {
         case A1: p->append(QSharedPointer<HA>::create(1)); break;
         case A2: p->append(QSharedPointer<HA>::create(2)); break;
@@ -86,7 +87,7 @@ void build(Pipeline *p, const std::vector<Node> &f, Built &b)
         case M1: p->append(QSharedPointer<HM>::create(1)); break;
         case M2: p->append(QSharedPointer<HM>::create(2)); break;
         case MEMPTY: p->append(QSharedPointer<HM>::create(0)); break;
-        case SINK: p->append(QSharedPointer<HS>::create(b.nsinks++, &b.obs)); break;
+        case SINK: p->append(QSharedPointer<HS>::create(n.sid >= 0 ? n.sid : b.nsinks++, &b.obs)); break;
         case GACC: p->append(FunctionHandlerPtr::create([](LogMessage &) { return true; })); break;
         case GREJ: p->append(FunctionHandlerPtr::create([](LogMessage &) { return false; })); break;
         case GMUT: p->append(FunctionHandlerPtr::create([](LogMessage &m) {
@@ -103,6 +104,7 @@ void build(Pipeline *p, const std::vector<Node> &f, Built &b)
             p->append(c);
             break; }
         }
+        if (n.kind != NUL) b.made[&n] = std::as_const(*p).handlers().last();
     }
 }
 
@@ -133,7 +135,7 @@ void refRun(const std::vector<Node> &f, RState &st, RCtx &c, int &sinkCursor, bo
         case M1: case M2: if (active) { int k = n.kind == M1 ? 1 : 2; st.fmt = QStringLiteral("M%1(%2;%3)").arg(k).arg(st.fmt ? *st.fmt : c.raw, ashow(st.attrs)); } break;
         case MEMPTY: if (active) st.fmt = QStringLiteral(""); break;
         case GMUT: if (active) { st.attrs[QStringLiteral("g")] = QStringLiteral("G"); st.fmt = QStringLiteral("G(%1)").arg(st.fmt ? *st.fmt : c.raw); } break;
-        case SINK: { int id = sinkCursor++; if (active) c.log.push_back({ id, st.fmt ? *st.fmt : c.raw, st.attrs, c.raw }); break; }
+        case SINK: { int id = n.sid >= 0 ? n.sid : sinkCursor++; if (active) c.log.push_back({ id, st.fmt ? *st.fmt : c.raw, st.attrs, c.raw }); break; }
         case NUL: break;
         case MCOND: if (active && c.raw == QStringLiteral("m1")) st.fmt = QStringLiteral("C(%1)").arg(st.fmt ? *st.fmt : c.raw); break;
         case PIPE_U: refRun(n.kids, st, c, sinkCursor, active); break;
@@ -204,6 +206,93 @@ void checkTree(const std::vector<Node> &f, bool rootScoped, vx::Summary &sum)
     if ((sum.cases & 1023) == 0 && sum.outcomes.size() < 5000) sum.outcomes.insert(out);
 }
 
+
+// ---------------------------------------------------------------- mutation space: a LIVE tree is changed between messages
+// "For every tree of handlers": a tree that has already processed messages and is then extended (append to any pipeline of the
+// tree), reduced (remove a handler from its pipeline) or emptied (clear a pipeline) is a tree like any other - the next message must
+// be evaluated in order on the tree as it is NOW. Nothing a pipeline remembers about its descendants may survive their change.
+void numberTree(std::vector<Node> &f, int &next) { for (auto &n : f) { if (n.kind == SINK) n.sid = next++; else if (n.kind >= PIPE_U) numberTree(n.kids, next); } }
+void allPaths(const std::vector<Node> &f, std::vector<int> &cur, std::vector<std::vector<int>> &out)
+{
+    for (size_t i = 0; i < f.size(); i++) { cur.push_back((int)i); out.push_back(cur); if (f[i].kind >= PIPE_U) allPaths(f[i].kids, cur, out); cur.pop_back(); }
+}
+std::vector<Node> &siblingsAt(std::vector<Node> &f, const std::vector<int> &path)
+{
+    std::vector<Node> *v = &f;
+    for (size_t i = 0; i + 1 < path.size(); i++) v = &(*v)[path[i]].kids;
+    return *v;
+}
+const char *MUT[] = { "append", "remove", "clear" };
+
+void checkMutation(const std::vector<Node> &f0, const std::vector<int> &path, int mode, vx::Summary &sum)
+{
+    std::vector<Node> full = f0;                       // the larger tree (before a removal / after an append)
+    int next = 0; numberTree(full, next);
+    std::vector<Node> &sib = siblingsAt(full, path);
+    const Node *x = &sib[path.back()];
+    std::vector<Node> small = full;                    // the tree without x (append, remove) or with x's children gone (clear)
+    { std::vector<Node> &ss = siblingsAt(small, path); if (mode == 2) ss[path.back()].kids.clear(); else ss.erase(ss.begin() + path.back()); }
+    const std::vector<Node> &before = mode == 0 ? small : full, &after = mode == 0 ? full : small;
+
+    Built b;
+    b.root = PipelinePtr::create(false);
+    if (mode == 0) b.skip = x;
+    build(b.root.data(), full, b);
+    Pipeline *parent = b.root.data();
+    if (path.size() > 1) { std::vector<Node> *v = &full; const Node *pn = nullptr; for (size_t i = 0; i + 1 < path.size(); i++) { pn = &(*v)[path[i]]; v = &(*v)[path[i]].kids; } parent = static_cast<Pipeline *>(b.made[pn].data()); }
+
+    RCtx rc;
+    std::string out;
+    auto one = [&](const char *text, const std::vector<Node> &tree, int step) {
+        QMessageLogContext ctx("file.cpp", 7, "fn()", "cat");
+        LogMessage m(QtDebugMsg, ctx, QString::fromLatin1(text));
+        b.obs.log.clear();
+        bool r = b.root->process(m);
+        RState st; rc.log.clear(); rc.raw = QString::fromLatin1(text);
+        int cursor = 0;
+        refRun(tree, st, rc, cursor, true);
+        sum.transitions += 1;
+        bool fmtOk = st.fmt ? (m.isFormatted() && m.formattedMessage() == *st.fmt) : !m.isFormatted();
+        if (!(b.obs.log == rc.log) || !r || !fmtOk || amap(m.attributes()) != st.attrs) {
+            std::string ps; for (int i : path) ps += (ps.empty() ? "" : ".") + std::to_string(i);
+            sum.violate("mutation-mismatch", "tree [" + show(before) + "] processed m1, then " + MUT[mode] + " at position " + ps + " gives [" + show(after) + "]; message " + std::to_string(step) + " (" + text + "): sinks saw " + dshow(b.obs.log) +
+                        " but in-order evaluation of the tree as it is now predicts " + dshow(rc.log) + "; message afterwards: formatted=" + (m.isFormatted() ? "'" + m.formattedMessage().toStdString() + "'" : std::string("(none)")) + " attrs={" + ashow(amap(m.attributes())).toStdString() + "}, predicted formatted=" +
+                        (st.fmt ? "'" + st.fmt->toStdString() + "'" : std::string("(none)")) + " attrs={" + ashow(st.attrs).toStdString() + "}",
+                        "{\"kind\":\"c01-mutation\",\"tree\":" + vx::jstr(show(f0)) + ",\"path\":" + vx::jstr(ps) + ",\"op\":" + vx::jstr(MUT[mode]) + "}");
+        }
+        out += dshow(b.obs.log) + "#";
+    };
+    one("m1", before, 1);
+    if (mode == 0) {
+        PipelinePtr tmp = PipelinePtr::create(false);
+        std::vector<Node> just { *x };
+        // sinks built now must report into b.obs: build with b itself into a scratch pipeline, then move the handler over
+        b.skip = nullptr;
+        build(tmp.data(), just, b);
+        if (x->kind == NUL) parent->append({ HandlerPtr() }); else parent->append(std::as_const(*tmp).handlers().last());
+    } else if (mode == 1) parent->remove(b.made[x]);
+    else static_cast<Pipeline *>(b.made[x].data())->clear();
+    one("m2", after, 2);
+    one("m1", after, 3);
+    sum.digestAdd(show(f0) + "/" + MUT[mode] + "=>" + out);
+    sum.cases++;
+    sum.counters["mutation_cases"]++;
+}
+
+void mutationsOf(const std::vector<Node> &f, vx::Summary &sum)
+{
+    std::vector<std::vector<int>> paths; std::vector<int> cur;
+    allPaths(f, cur, paths);
+    std::vector<Node> copy = f;
+    for (auto &p : paths) {
+        std::vector<Node> &sib = siblingsAt(copy, p);
+        const Node &x = sib[p.back()];
+        if (p.back() == (int)sib.size() - 1) checkMutation(f, p, 0, sum);                               // x appended later (it is the last child of its pipeline)
+        if (x.kind != CNT && x.kind != NUL) checkMutation(f, p, 1, sum);                                 // x removed (the shared counter instance and null entries have no identity to remove by)
+        if (x.kind >= PIPE_U && !x.kids.empty()) checkMutation(f, p, 2, sum);                            // x cleared
+    }
+}
+
 // ---------------------------------------------------------------- fluent builder space
 const char *BOP[] = { "attrHandler", "filter(+)", "filter(-)", "format", "handler(+)", "handler(-)", "sink", "pipeline()", "end()" };
 const int NBOP = 9;
@@ -259,8 +348,9 @@ int main(int argc, char **argv)
     int calls = vx::argInt(argc, argv, "--calls", 5);
     int shard = vx::argInt(argc, argv, "--shard", 0), nshards = vx::argInt(argc, argv, "--nshards", 1);
     int scopedRoot = vx::argInt(argc, argv, "--scoped-root", 0);
+    int mutNodes = vx::argInt(argc, argv, "--mut-nodes", 0);
     vx::Summary sum;
-    sum.bound = "trees <= " + std::to_string(nodes) + " nodes, depth <= " + std::to_string(depth) + ", 13 leaf kinds, 2 messages; builder calls <= " + std::to_string(calls);
+    sum.bound = "trees <= " + std::to_string(nodes) + " nodes, depth <= " + std::to_string(depth) + ", 13 leaf kinds, 2 messages; builder calls <= " + std::to_string(calls) + "; live-tree changes (append / remove / clear at every node) on trees <= " + std::to_string(mutNodes) + " nodes, 3 messages";
 
     long long idx = 0;
     for (int size = 0; size <= nodes; size++) {
@@ -274,6 +364,11 @@ int main(int argc, char **argv)
         sum.counters["trees_size_" + std::to_string(size)] = 0; // filled by python merge via cases; placeholder keeps key order
     }
     sum.counters["trees"] = sum.cases;
+    // live trees changed between messages
+    for (int size = 1; size <= mutNodes; size++) {
+        std::vector<Node> cur;
+        forests(size, depth, cur, [&](const std::vector<Node> &f) { if ((idx++ % nshards) == shard) mutationsOf(f, sum); });
+    }
     // fluent builder sequences
     std::vector<int> ops;
     std::function<void(int)> rec = [&](int left) {
